@@ -7,12 +7,34 @@ use crate::reg_child::{type_raw_name, SLOTS, TYPE_COUNT};
 use crate::rng::{hex, unhex, Rng};
 use std::process::{Command, Stdio};
 
+/// Splits off `("│  " | "   ")* ("├─ " | "╰─ ")`; rows without a branch glyph
+/// have no prefix.
+pub fn tree_prefix(line: &str) -> (&str, &str) {
+    let mut at = 0;
+    loop {
+        let rest = &line[at..];
+        let g: String = rest.chars().take(3).collect();
+        match g.as_str() {
+            "│  " | "   " => at += g.len(),
+            "├─ " | "╰─ " => {
+                at += g.len();
+                return line.split_at(at);
+            }
+            _ => return ("", line),
+        }
+    }
+}
+
 /// Replaces measured values by class tokens and collapses runs of spaces, so
 /// that bench-mode output is deterministic (samples/iters stay exact).
 fn canon_bench(out: &str) -> String {
     const TIME_UNITS: &[&str] = &["ps", "ns", "µs", "ms", "s", "m", "h", "d"];
     let mut res = String::new();
     for line in out.lines() {
+        // The tree prefix of a row that opens a node (bars, blanks and the
+        // branch glyph, three columns per level) is kept verbatim.
+        let (prefix, line) = tree_prefix(line);
+        res.push_str(prefix);
         let words: Vec<&str> = line.split(' ').filter(|w| !w.is_empty()).collect();
         let mut outw: Vec<String> = Vec::new();
         let mut i = 0;
